@@ -248,7 +248,7 @@ func c03FlipPhase(rep *verifkit.Report, nextID func() uint64) {
 			continue
 		}
 
-		u, err := c03Prepare(a)
+		u, err := c03Prepare(a, false)
 		if err != nil {
 			rep.Inconcl("flip: Prepare rejected generated lists: " + err.Error())
 
